@@ -264,23 +264,16 @@ Qed.
 Lemma norm_text a t :
   text a = Some t -> norm_name a = Ok (utf8_encode (lower t)).
 Proof.
-  intros H. apply text_str in H. destruct H as [-> E].
-  unfold norm_name, lower_arg, bind, iso88591.
-  rewrite encodable_lower, E. reflexivity.
+  intros H. unfold norm_name. rewrite (iso_text _ _ H). cbn [bind].
+  rewrite lower_utf8. reflexivity.
 Qed.
 
 Lemma norm_notext a :
-  text a = None -> lowerable a = true ->
-  exists e, norm_name a = Err e /\ rejects e.
+  text a = None -> exists e, norm_name a = Err e /\ rejects e.
 Proof.
-  unfold rejects.
-  destruct a as [s| | |]; cbn [text lowerable]; try discriminate;
-    unfold norm_name, lower_arg, bind, iso88591; eauto.
-  rewrite encodable_lower. destruct (encodable s); [discriminate|eauto].
+  intros H. destruct (iso_notext _ H) as (e & E & R).
+  exists e. unfold norm_name. rewrite E. auto.
 Qed.
-
-Lemma norm_unlowerable a : lowerable a = false -> norm_name a = Err AttributeError.
-Proof. destruct a; cbn [lowerable]; try discriminate; reflexivity. Qed.
 
 Lemma key_eq k t :
   lz_eqb (lower k) (utf8_encode (lower t)) = same_name k (utf8_encode t).
@@ -335,10 +328,10 @@ Proof.
 Qed.
 
 Lemma getitem_notext s a :
-  text a = None -> lowerable a = true ->
+  text a = None ->
   exists e, getitem s a = Err e /\ rejects e.
 Proof.
-  intros H L. destruct (norm_notext _ H L) as (e & E & R).
+  intros H. destruct (norm_notext _ H) as (e & E & R).
   exists e. unfold getitem. rewrite E. auto.
 Qed.
 
@@ -487,10 +480,10 @@ Proof.
 Qed.
 
 Lemma mapping_get_notext s a :
-  text a = None -> lowerable a = true ->
+  text a = None ->
   exists e, mapping_get s a = Err e /\ rejects e.
 Proof.
-  intros H L. destruct (getitem_notext s _ H L) as (e & E & R).
+  intros H. destruct (getitem_notext s _ H) as (e & E & R).
   exists e. unfold mapping_get. rewrite E. destruct R as [-> | ->]; split;
     try reflexivity; unfold rejects; auto.
 Qed.
@@ -503,10 +496,10 @@ Proof.
 Qed.
 
 Lemma contains_notext s a :
-  text a = None -> lowerable a = true ->
+  text a = None ->
   exists e, contains s a = Err e /\ rejects e.
 Proof.
-  intros H L. destruct (getitem_notext s _ H L) as (e & E & R).
+  intros H. destruct (getitem_notext s _ H) as (e & E & R).
   exists e. unfold contains. rewrite E. destruct R as [-> | ->]; split;
     try reflexivity; unfold rejects; auto.
 Qed.
@@ -519,10 +512,10 @@ Proof.
 Qed.
 
 Lemma delitem_notext s a :
-  text a = None -> lowerable a = true ->
+  text a = None ->
   exists e, delitem s a = Err e /\ rejects e.
 Proof.
-  intros H L. destruct (norm_notext _ H L) as (e & E & R).
+  intros H. destruct (norm_notext _ H) as (e & E & R).
   exists e. unfold delitem. rewrite E. auto.
 Qed.
 
@@ -535,10 +528,10 @@ Proof.
 Qed.
 
 Lemma get_all_notext s a :
-  text a = None -> lowerable a = true ->
+  text a = None ->
   exists e, get_all s a = Err e /\ rejects e.
 Proof.
-  intros H L. destruct (norm_notext _ H L) as (e & E & R).
+  intros H. destruct (norm_notext _ H) as (e & E & R).
   exists e. unfold get_all. rewrite E. auto.
 Qed.
 
@@ -642,12 +635,13 @@ Ltac reject_with L :=
   destruct L as (e & E & R); rewrite E; cbn [of_res];
   apply rel_rejected; exact R.
 
-(* every operation, one step: the code does what the reference says *)
+(* every operation, one step, every argument (hostile ones included): the
+   code does what the reference says *)
 Theorem step_refines s o :
-  benign o = true -> step_rel (step s o) (spec_step utf8_encode s o).
+  step_rel (step s o) (spec_step utf8_encode s o).
 Proof.
-  intros B. destruct o as [c|c|n v|n v ps|n v|n|n v|n|n|n|n| | | |];
-    cbn [step spec_step benign] in *.
+  destruct o as [c|c|n v|n v ps|n v|n|n v|n|n|n|n| | | |];
+    cbn [step spec_step] in *.
   - (* OInit *)
     destruct c as [|l|l|truthy]; cbn [init_strict spec_init of_res].
     + split; reflexivity.
@@ -664,49 +658,34 @@ Proof.
     destruct truthy; [apply rel_rejected; left; reflexivity|split; reflexivity].
   - (* OAdd *)
     unfold add. destruct (text n) as [t|] eqn:En.
-    + rewrite (with_name_text _ _ _ _ En).
+    + rewrite (with_name_text _ _ _ _ En), (contains_text _ _ _ En).
       pose proof (text_str _ _ En) as [Hn _]. subst n.
       cbn [not_set_cookie lower_arg bind]. unfold same_name.
       change (lower s_set_cookie) with s_set_cookie.
-      destruct (lz_eqb (lower t) s_set_cookie); cbn [negb andb].
-      * apply add_header_refines.
-      * rewrite (contains_text _ _ _ En).
-        destruct (has (utf8_encode t) s).
-        -- split; reflexivity.
+      destruct (has (utf8_encode t) s); rewrite ?andb_false_r, ?andb_true_r.
+      * destruct (lz_eqb (lower t) s_set_cookie); cbn [negb].
         -- apply add_header_refines.
+        -- split; reflexivity.
+      * apply add_header_refines.
     + rewrite (with_name_notext _ _ _ En).
-      assert (Hc : step_rel
-                (match contains s n with
-                 | Ok true => (s, Raised KeyError)
-                 | Ok false => add_header s n (HArg v) []
-                 | Err e => (s, Raised e)
-                 end) (s, SRejected)).
-      { destruct (contains_notext s _ En B) as (e & E & R). rewrite E.
-        apply rel_rejected. exact R. }
-      assert (Ha : step_rel (add_header s n (HArg v) []) (s, SRejected)).
-      { destruct (add_header_bad_name s n (HArg v) [] En) as (e & E & R).
-        rewrite E. apply rel_rejected. exact R. }
-      destruct n as [sn|bn| |zn]; try discriminate;
-        cbn [not_set_cookie lower_arg bind].
-      * destruct (negb (lz_eqb (lower sn) s_set_cookie)); assumption.
-      * exact Hc.
+      destruct (contains_notext s _ En) as (e & E & R). rewrite E.
+      apply rel_rejected. exact R.
   - (* OAddHeader *) apply add_header_refines.
   - (* OSet *)
-    apply andb_true_iff in B. destruct B as [L B]. unfold setitem.
-    destruct (text n) as [t|] eqn:En.
-    + rewrite (with_name_text _ _ _ _ En).
-      unfold text_ok in B. rewrite En in B. cbn [negb orb] in B.
-      destruct (text v) as [tv|] eqn:Ev; [|discriminate].
-      rewrite (delitem_text _ _ _ En), (add_header_plain _ _ _ _ _ En Ev).
-      split; reflexivity.
+    unfold setitem. destruct (text n) as [t|] eqn:En.
+    + rewrite (with_name_text _ _ _ _ En), (delitem_text _ _ _ En).
+      destruct (text v) as [tv|] eqn:Ev.
+      * rewrite (add_header_plain _ _ _ _ _ En Ev). split; reflexivity.
+      * destruct (add_header_bad_value (others (utf8_encode t) s) n v Ev)
+          as (e & E & R). rewrite E. apply rel_rejected. exact R.
     + rewrite (with_name_notext _ _ _ En).
-      reject_with (delitem_notext s _ En L).
+      reject_with (delitem_notext s _ En).
   - (* ODel *)
     destruct (text n) as [t|] eqn:En.
     + rewrite (with_name_text _ _ _ _ En), (delitem_text _ _ _ En).
       split; reflexivity.
     + rewrite (with_name_notext _ _ _ En).
-      reject_with (delitem_notext s _ En B).
+      reject_with (delitem_notext s _ En).
   - (* OSetdefault *)
     unfold setdefault. destruct (text n) as [t|] eqn:En.
     + rewrite (with_name_text _ _ _ _ En), (mapping_get_text _ _ _ En).
@@ -717,47 +696,45 @@ Proof.
       * destruct (add_header_bad_value s n v Ev) as (e & E & R). rewrite E.
         apply rel_rejected. exact R.
     + rewrite (with_name_notext _ _ _ En).
-      reject_with (mapping_get_notext s _ En B).
+      reject_with (mapping_get_notext s _ En).
   - (* OGet *)
     destruct (text n) as [t|] eqn:En.
     + rewrite (with_name_text _ _ _ _ En), (mapping_get_text _ _ _ En).
       cbn [of_res]. destruct (entries_of (utf8_encode t) s); split; reflexivity.
     + rewrite (with_name_notext _ _ _ En).
-      reject_with (mapping_get_notext s _ En B).
+      reject_with (mapping_get_notext s _ En).
   - (* OGetAll *)
     destruct (text n) as [t|] eqn:En.
     + rewrite (with_name_text _ _ _ _ En), (get_all_text _ _ _ En).
       split; reflexivity.
     + rewrite (with_name_notext _ _ _ En).
-      reject_with (get_all_notext s _ En B).
+      reject_with (get_all_notext s _ En).
   - (* OContains *)
     destruct (text n) as [t|] eqn:En.
     + rewrite (with_name_text _ _ _ _ En), (contains_text _ _ _ En).
       split; reflexivity.
     + rewrite (with_name_notext _ _ _ En).
-      reject_with (contains_notext s _ En B).
+      reject_with (contains_notext s _ En).
   - (* OGetItem *)
     destruct (text n) as [t|] eqn:En.
     + rewrite (with_name_text _ _ _ _ En), (getitem_text _ _ _ En).
       destruct (entries_of (utf8_encode t) s); split; reflexivity.
     + rewrite (with_name_notext _ _ _ En).
-      reject_with (getitem_notext s _ En B).
+      reject_with (getitem_notext s _ En).
   - split; reflexivity.
   - split; reflexivity.
   - split; reflexivity.
   - split; reflexivity.
 Qed.
 
-(* every history: states and outcomes after every step *)
+(* every history, hostile arguments included: states and outcomes after
+   every step *)
 Theorem run_refines ops : forall s,
-  forallb benign ops = true ->
   Forall2 step_rel (run s ops) (srun utf8_encode s ops).
 Proof.
-  induction ops as [|o ops IH]; intros s B; [constructor|].
-  cbn [forallb] in B. apply andb_true_iff in B. destruct B as [Bo Bs].
-  cbn [run srun]. pose proof (step_refines s o Bo) as R.
-  constructor; [exact R|]. destruct R as [Rs _]. rewrite Rs.
-  apply IH. exact Bs.
+  induction ops as [|o ops IH]; intros s; [constructor|].
+  cbn [run srun]. pose proof (step_refines s o) as R.
+  constructor; [exact R|]. destruct R as [Rs _]. rewrite Rs. apply IH.
 Qed.
 
 (* ======================================================= rejection *)
@@ -774,93 +751,35 @@ Proof.
     subst; try reflexivity; discriminate.
 Qed.
 
-(* an operation that raises (whatever it raises) stores nothing; the only
-   state change possible is the deletion done by h[name] = value *)
+(* an operation that raises (whatever it raises) leaves the collection
+   unchanged *)
 Theorem raise_never_stores s o e :
-  snd (step s o) = Raised e ->
-  fst (step s o) = s \/
-  exists n v, o = OSet n v /\ delitem s n = Ok (fst (step s o)).
+  snd (step s o) = Raised e -> fst (step s o) = s.
 Proof.
   destruct o as [c|c|n v|n v ps|n v|n|n v|n|n|n|n| | | |]; cbn [step];
     unfold add, setitem, setdefault, of_res.
   5:{ (* OSet *)
-      destruct (delitem s n) as [s1|e1] eqn:D; [|left; reflexivity].
-      destruct (add_header s1 n (HArg v) []) as [s2 o2] eqn:A. cbn [fst snd].
-      intros ->. right. exists n, v. split; [reflexivity|].
-      rewrite D, (add_header_raise _ _ _ _ _ _ A). reflexivity. }
+      destruct (delitem s n) as [s1|e1] eqn:D; [|reflexivity].
+      destruct (add_header s1 n (HArg v) []) as [s2 o2] eqn:A.
+      destruct o2; cbn [fst snd]; intros H; try discriminate. reflexivity. }
   all: repeat break_match; cbn [fst snd]; intros H; subst;
-    try first [discriminate | left; reflexivity
+    try first [discriminate | reflexivity
           | destruct v; discriminate
-          | left; eapply add_header_raise; eassumption ].
-  all: left;
-    match goal with
-    | H : snd ?x = Raised _ |- _ =>
-        destruct x as [s2 o2] eqn:A; cbn [fst snd] in *; subst o2;
-        eapply add_header_raise; exact A
-    end.
+          | eapply add_header_raise; eassumption ].
+  all: match goal with
+       | H : snd ?x = Raised _ |- _ =>
+           destruct x as [s2 o2] eqn:A; cbn [fst snd] in *; subst o2;
+           eapply add_header_raise; exact A
+       end.
 Qed.
 
-Lemma step_unlowerable s o :
-  benign o = false ->
-  (exists n v, o = OSet n v /\ lowerable n = true) \/
-  step s o = (s, Raised AttributeError).
-Proof.
-  destruct o as [c|c|n v|n v ps|n v|n|n v|n|n|n|n| | | |]; cbn [benign];
-    try discriminate; intros B.
-  - right. destruct n; try discriminate; reflexivity.
-  - destruct (lowerable n) eqn:L; [left; eauto|right].
-    destruct n; try discriminate; reflexivity.
-  - right. destruct n; try discriminate; reflexivity.
-  - right. destruct n; try discriminate; reflexivity.
-  - right. destruct n; try discriminate; reflexivity.
-  - right. destruct n; try discriminate; reflexivity.
-  - right. destruct n; try discriminate; reflexivity.
-  - right. destruct n; try discriminate; reflexivity.
-Qed.
-
-(* whatever the reference rejects, the code refuses with an exception that
-   is not KeyError: TypeError, ValueError - or AttributeError, see below *)
+(* whatever the reference rejects (a non-str or unencodable name or value,
+   an empty header) raises TypeError or ValueError *)
 Theorem invalid_raises s o :
   snd (spec_step utf8_encode s o) = SRejected ->
-  exists e, snd (step s o) = Raised e /\
-            (e = TypeError \/ e = ValueError \/ e = AttributeError).
+  snd (step s o) = Raised TypeError \/ snd (step s o) = Raised ValueError.
 Proof.
-  intros H. destruct (benign o) eqn:B.
-  - destruct (step_refines s o B) as [_ R]. rewrite H in R. cbn [out_rel] in R.
-    destruct R as [R|R]; rewrite R; eexists; (split; [reflexivity|auto]).
-  - destruct (step_unlowerable s o B) as [(n & v & -> & L)|E].
-    + cbn [benign] in B. rewrite L in B. cbn [andb] in B.
-      apply orb_false_iff in B. destruct B as [Bn Bv].
-      apply negb_false_iff in Bn. unfold text_ok in Bn, Bv.
-      destruct (text n) as [t|] eqn:En; [|discriminate].
-      destruct (text v) as [tv|] eqn:Ev; [discriminate|].
-      cbn [step]. unfold setitem. rewrite (delitem_text _ _ _ En).
-      destruct (add_header_bad_value (others (utf8_encode t) s) n v Ev)
-        as (e & E & [-> | ->]); rewrite E; eexists; (split; [reflexivity|auto]).
-    + rewrite E. eexists; split; [reflexivity|auto].
-Qed.
-
-(* The full statements are false of the code: *)
-Theorem nonstr_name_attributeerror_refuted :
-  exists s n v,
-    snd (spec_step utf8_encode s (OAdd n v)) = SRejected /\
-    step s (OAdd n v) = (s, Raised AttributeError).
-Proof. exists [], (AInt 5), (AStr [120]). split; reflexivity. Qed.
-
-Theorem set_rejected_value_deletes_refuted :
-  exists s n v,
-    spec_step utf8_encode s (OSet n v) = (s, SRejected) /\
-    step s (OSet n v) = ([], Raised TypeError) /\ s <> [].
-Proof.
-  exists [([88], [49])], (AStr [120]), (AInt 5).
-  split; [reflexivity|]. split; [reflexivity|discriminate].
-Qed.
-
-Theorem refines_all_operations_refuted :
-  exists s o, ~ step_rel (step s o) (spec_step utf8_encode s o).
-Proof.
-  exists [([88], [49])], (OSet (AStr [120]) (AInt 5)).
-  intros [H _]. discriminate H.
+  intros H. destruct (step_refines s o) as [_ R]. rewrite H in R. exact R.
 Qed.
 
 (* ================================================== stored is latin-1 *)
@@ -1042,7 +961,10 @@ Proof.
     apply add_header_latin1; auto.
   - apply andb_true_iff in W. destruct W as [Wn Wv]. unfold setitem.
     destruct (delitem s n) as [s1|] eqn:D; [|exact Ls].
-    apply add_header_latin1; auto. exact (delitem_latin1 _ _ _ Ls D).
+    pose proof (add_header_latin1 s1 n (HArg v) [] (delitem_latin1 _ _ _ Ls D)
+                  Wn Wv eq_refl) as La.
+    destruct (add_header s1 n (HArg v) []) as [s2 o2]. cbn [fst] in La.
+    destruct o2; first [exact La | exact Ls].
   - destruct (delitem s n) as [s1|] eqn:D; [|exact Ls].
     exact (delitem_latin1 _ _ _ Ls D).
   - apply andb_true_iff in W. destruct W as [Wn Wv]. unfold setdefault.
@@ -1073,7 +995,12 @@ Proof. intros H. cbn [text]. rewrite H. reflexivity. Qed.
 
 Lemma norm_name_case n1 n2 :
   lower n1 = lower n2 -> norm_name (AStr n1) = norm_name (AStr n2).
-Proof. intros H. unfold norm_name, lower_arg, bind. rewrite H. reflexivity. Qed.
+Proof.
+  intros H. unfold norm_name, iso88591, bind.
+  rewrite <- (encodable_lower n1), <- (encodable_lower n2), H.
+  destruct (encodable (lower n2)); [|reflexivity].
+  rewrite !lower_utf8, H. reflexivity.
+Qed.
 
 (* lookups (and deletion) do not see the case of the name they are given *)
 Theorem lookup_ignores_case s n1 n2 :
@@ -1161,8 +1088,9 @@ Proof.
   rewrite (add_header_plain _ _ _ _ _ (text_encodable _ En)
              (text_encodable _ Ev)).
   fold (has (utf8_encode n) s).
-  destruct (lz_eqb (lower n) s_set_cookie); cbn [negb andb]; [reflexivity|].
-  destruct (has (utf8_encode n) s); reflexivity.
+  destruct (has (utf8_encode n) s); rewrite ?andb_false_r, ?andb_true_r;
+    [|reflexivity].
+  destruct (lz_eqb (lower n) s_set_cookie); reflexivity.
 Qed.
 
 (* iteration order is insertion order: apart from re-construction, an
@@ -1201,9 +1129,12 @@ Proof.
     cbn [bind].
     destruct (add_header_shape
                 (filter (fun kv => negb (lz_eqb (lower (fst kv)) k)) s)
-                n (HArg v) []) as [E|(x & E)]; rewrite E.
-    + eexists _, []. rewrite app_nil_r. auto.
-    + eexists _, [x]. auto.
+                n (HArg v) []) as [E|(x & E)];
+      destruct (add_header _ n (HArg v) []) as [s2 o2]; cbn [fst] in E;
+      subst s2; destruct o2; cbn [fst]; try exact Same.
+    all: first [ solve [eexists _, []; rewrite app_nil_r; split;
+                          [reflexivity|cbn; auto] ]
+               | solve [eexists _, [_]; split; [reflexivity|cbn; auto] ] ].
   - unfold delitem. destruct (norm_name n) as [k|]; [|exact Same].
     cbn [bind of_res fst]. eexists _, []. rewrite app_nil_r. auto.
   - unfold setdefault. destruct (mapping_get s n) as [[v0|]|]; try exact Same.
@@ -1383,15 +1314,15 @@ Qed.
    text-level entries, and the code raises KeyError / TypeError|ValueError
    exactly where the text-level multimap refuses / rejects *)
 Theorem run_stores_utf8_of_texts ops : forall mt,
-  forallb benign ops = true -> forallb strict_op ops = true ->
+  forallb strict_op ops = true ->
   Forall2 (fun a b => fst a = map encp (fst b) /\
                       okind (snd a) = skind (snd b))
           (run (map encp mt) ops) (srun tid mt ops).
 Proof.
-  induction ops as [|o ops IH]; intros mt B S; [constructor|].
-  cbn [forallb] in B, S. apply andb_true_iff in B. apply andb_true_iff in S.
-  destruct B as [Bo Bs]. destruct S as [So Ss]. cbn [run srun].
-  destruct (step_refines (map encp mt) o Bo) as [R1 R2].
+  induction ops as [|o ops IH]; intros mt S; [constructor|].
+  cbn [forallb] in S. apply andb_true_iff in S.
+  destruct S as [So Ss]. cbn [run srun].
+  destruct (step_refines (map encp mt) o) as [R1 R2].
   destruct (spec_sim mt o So) as [Q1 Q2].
   destruct (step (map encp mt) o) as [s1 o1].
   destruct (spec_step tid mt o) as [m2 k2].
@@ -1427,14 +1358,12 @@ Definition ex_history : list op :=
 (* non-vacuity: a history meeting the hypotheses of the history theorems,
    with a refused duplicate, repeated Set-Cookie, replacement, parameters *)
 Example history_example :
-  forallb benign (firstn 7 ex_history) = true /\
   forallb strict_op ex_history = true /\
   forallb op_wf ex_history = true /\
-  forallb benign ex_history = false /\
   map snd (run [] ex_history) =
   [ ONone; Raised KeyError; ONone; ONone; ONone; ONone;
     OStrs [[99]; [97; 59; 32; 102; 45; 110; 61; 34; 92; 34; 195; 169; 34]];
-    Raised AttributeError; Raised ValueError ] /\
+    Raised TypeError; Raised ValueError ] /\
   fst (last (run [] ex_history) ([], ONone)) =
   [ (ex_SetCookie, [226; 130; 172]);
     (s_set_cookie, [240; 159; 152; 128]);
